@@ -313,7 +313,7 @@ def check(text, parsed=None):
             for ty, cnt in fl:
                 if ty.startswith(':') and ty not in seen:
                     out.append('undefined-type: type %s uses %s before its definition' % (obj.name, ty))
-                if cnt < 1:
+                if cnt < 0:     # 0 is accepted by QBE's parsefields (no field, but the alignment counts): a flexible array member
                     out.append('bad-type: type %s has a field count %d' % (obj.name, cnt))
             if obj.align is not None and (obj.align <= 0 or obj.align & (obj.align - 1)):
                 out.append('bad-type: type %s has alignment %s' % (obj.name, obj.align))
